@@ -563,3 +563,118 @@ def refresh_writes_through(ctx: Ctx, rep: Report, rid: str):
 def extra_facts_local(facts, allowed):
     from sa.util import extra_facts
     return extra_facts(facts, allowed)
+
+
+def split_contract(ctx: Ctx, rep: Report, rid: str):
+    """SyncState.split(ent): the LOCAL half moves to a NEW entry, the original keeps the REMOTE half; the moved half is cleared from the
+    original after the move; both entries are marked changed and lose their last-synced path; the result is (remote entry, REMOTE, local
+    entry, LOCAL) - callers rely on 'remote is deferred to, local is the one that gets out of the way'."""
+    f = ctx.prog.func("SyncState.split")
+    ent = f.params()[1]
+    g = ctx.cfg(f)
+    consts = {n.targets[0].id: n.value.id for n in ctx.own_nodes(f) if isinstance(n, ast.Assign) and isinstance(n.targets[0], ast.Name) and isinstance(n.value, ast.Name)
+              and n.value.id in ("LOCAL", "REMOTE")}
+    rets = [n for n in ctx.own_nodes(f) if isinstance(n, ast.Return) and isinstance(n.value, ast.Tuple) and len(n.value.elts) == 4]
+    if len(rets) != 1:
+        raise AnalysisError("SyncState.split: the 4-tuple return was not found")
+    d_ent, d_side, r_ent, r_side = [ast.unparse(e) for e in rets[0].value.elts]
+    side_of = lambda s: consts.get(s, s)   # noqa: E731
+    rep.check(rid, "split|direction", ctx.line(f, rets[0]), side_of(d_side) == "REMOTE" and side_of(r_side) == "LOCAL", "returns (.., REMOTE, .., LOCAL)",
+              "split returns sides (%s, %s): the entry that is deferred to must be the REMOTE one and the one that is replaced the LOCAL one" % (side_of(d_side), side_of(r_side)))
+    news = [n for n in ctx.own_nodes(f) if isinstance(n, ast.Assign) and isinstance(n.targets[0], ast.Name) and n.targets[0].id == r_ent and pat.match("SyncEntry(self, $T)", n.value) is not None]
+    keeps = [n for n in ctx.own_nodes(f) if isinstance(n, ast.Assign) and isinstance(n.targets[0], ast.Name) and n.targets[0].id == d_ent and isinstance(n.value, ast.Name) and n.value.id == ent]
+    rep.check(rid, "split|entries", f, bool(news) and (bool(keeps) or d_ent == ent), "the replaced half gets a new entry, the deferred half keeps the original",
+              "split no longer creates a new entry for the replaced side / no longer keeps the original entry for the deferred side")
+    move = [n for n in g.nodes if cfg_root(n) is not None and isinstance(cfg_root(n), ast.Assign) and pat.match("%s[%s] = %s[%s]" % (r_ent, r_side, ent, r_side), cfg_root(n)) is not None]
+    clear = [n for n in g.nodes if node_has_call(n, "%s[%s].clear()" % (d_ent, r_side))]
+    p1 = g.reach([g.entry.id], lambda n: n in clear, avoid=lambda n: n in move, follow=NORMAL) if move and clear else []
+    p2 = g.reach([m.id for m in move], lambda n: n is g.exit, avoid=lambda n: n in clear, follow=NORMAL) if move and clear else []
+    rep.check(rid, "split|move-then-clear", f, bool(move) and bool(clear) and p1 is None and p2 is None, "the LOCAL half is moved to the new entry, then cleared from the original",
+              "split does not move the replaced half to the new entry and clear it from the original afterwards on every path: the two entries share / lose the local object",
+              witness=describe_path(p1 or p2) if (p1 or p2) else None)
+    for (s_, e_) in ((r_side, r_ent), (d_side, d_ent)):
+        mk = [n for n in g.nodes if node_has_call(n, "self.mark_changed(%s, %s)" % (s_, e_))]
+        pm = g.reach([g.entry.id], lambda n: n is g.exit, avoid=lambda n: n in mk, follow=NORMAL)
+        rep.check(rid, "split|changed|%s" % e_, f, bool(mk) and pm is None, "marked changed", "after a split the %s entry is not marked changed on side %s: it is never looked at again" % (e_, s_))
+        rs = [n for n in g.nodes if cfg_root(n) is not None and isinstance(cfg_root(n), ast.Assign) and pat.match("%s[%s].sync_path = None" % (e_, s_), cfg_root(n)) is not None]
+        pr = g.reach([g.entry.id], lambda n: n is g.exit, avoid=lambda n: n in rs, follow=NORMAL)
+        rep.check(rid, "split|unsynced|%s" % e_, f, bool(rs) and pr is None, "last-synced path reset",
+                  "after a split the %s entry keeps its last-synced path: it still looks synced with a peer it no longer has" % e_)
+
+
+def transfer_success_chain(ctx: Ctx, rep: Report, rid: str):
+    """handle_hash_diff: FINISHED is returned only after download_changed AND upload_synced both reported success; a falsy result of either is a
+    PUNT (the content is transferred again later), never a silent success."""
+    f = ctx.prog.func("SyncManager.handle_hash_diff")
+    g = ctx.cfg(f)
+    dl = [n for n in g.nodes if node_has_call(n, "self.download_changed($$$)")]
+    ul = [n for n in g.nodes if node_has_call(n, "self.upload_synced($$$)")]
+    if not dl or not ul:
+        raise AnalysisError("handle_hash_diff: download_changed / upload_synced calls not found")
+    fin = [n for n in g.nodes if n.kind == "stmt" and isinstance(n.ast, ast.Return) and isinstance(n.ast.value, ast.Name) and n.ast.value.id == "FINISHED"]
+    # FINISHED reachable after the download only through the upload
+    p1 = g.reach([d.id for d in dl], lambda n: n in fin, avoid=lambda n: n in ul, follow=NORMAL)
+    rep.check(rid, "handle_hash_diff|upload-before-finished", f, p1 is None, "after the download, FINISHED only through upload_synced",
+              "handle_hash_diff can report FINISHED after the download without uploading: the change is booked as propagated", witness=describe_path(p1) if p1 else None)
+    # the results are tested: a falsy download / upload result leads to PUNT
+    ok = True
+    detail = []
+    dres = None
+    for n in ctx.own_nodes(f):
+        if isinstance(n, ast.Assign) and isinstance(n.targets[0], ast.Name) and isinstance(n.value, ast.Call) and pat.match("self.download_changed($$$)", n.value) is not None:
+            dres = n.targets[0].id
+    punts = [n for n in g.nodes if n.kind == "stmt" and isinstance(n.ast, ast.Return) and isinstance(n.ast.value, ast.Name) and n.ast.value.id == "PUNT"]
+    for p_ in punts:
+        facts = ctx.facts(f).facts(p_)
+        for (txt, pol) in facts:
+            if dres and txt == dres and not pol:
+                detail.append("download")
+            if "upload_synced(" in txt and not pol:
+                detail.append("upload")
+    for n in fin:
+        facts = ctx.facts(f).facts(n)
+        if g.reach([d.id for d in dl], lambda m, n=n: m is n, follow=NORMAL) is None:
+            continue
+        ok = ok and (dres is not None and fact_in(facts, dres, True)) and any("upload_synced(" in txt and pol for (txt, pol) in facts)
+    rep.check(rid, "handle_hash_diff|results-tested", f, ok and {"download", "upload"} <= set(detail), "falsy download / upload result -> PUNT; FINISHED only when both truthy",
+              "handle_hash_diff no longer turns a failed download / upload (falsy result) into PUNT and success into FINISHED (punt arms: %s): a transfer that did not "
+              "happen is reported as done, or a successful one is retried for ever" % sorted(set(detail)))
+
+
+DEFINITIONS = {
+    # the predicates the state machine is written in, as read from the code and the property texts ({0} = self, {1}.. = parameters)
+    "SyncManager.path_conflict":
+        "{1}[0].path and {1}[1].path and (({1}[0].sync_hash and {1}[1].sync_hash) or ({1}[0].otype == DIRECTORY and {1}[1].otype == DIRECTORY)) "
+        "and {1}[0].sync_path and {1}[1].sync_path and {1}[0].exists == EXISTS and {1}[1].exists == EXISTS and {1}[1].path != {0}.translate(1, {1}[0].path) "
+        "and not {0}.providers[0].paths_match({1}[0].path, {1}[0].sync_path, for_display=True) "
+        "and not {0}.providers[1].paths_match({1}[1].path, {1}[1].sync_path, for_display=True) and not {1}.is_temp_rename",
+    "SideState.needs_sync":
+        "{0}.force_sync or ({0}.changed and {0}.oid and ({0}.hash != {0}.sync_hash or {0}.parent.paths_differ({0}.side) or {0}.exists in (TRASHED, LIKELY_TRASHED, MISSING)))",
+    "SyncEntry.is_creation":
+        "{0}[{1}].path and {0}[{1}].exists == EXISTS and {0}[{1}].needs_sync() and "
+        "(not {0}[OTHER_SIDE[{1}]].oid or {0}[OTHER_SIDE[{1}]].exists in (TRASHED, MISSING) or {0}[OTHER_SIDE[{1}]].corrupt_gone)",
+    "SyncEntry.is_deletion":
+        "{0}[OTHER_SIDE[{1}]].exists == EXISTS and {0}[{1}].exists in (TRASHED, MISSING) and {0}[{1}].changed",
+    "SyncEntry.is_path_change": "{0}[{1}].sync_path and {0}.paths_differ({1})",
+    "SyncEntry.is_rename": "{0}[{1}].sync_path and {0}[{1}].path and {0}.paths_differ({1})",
+    "SyncEntry.needs_sync": "{0}[LOCAL].needs_sync() or {0}[REMOTE].needs_sync()",
+    "SyncEntry.is_trash": "{0}[LOCAL].oid is None and {0}[REMOTE].oid is None",
+}
+
+
+def definition_holds(ctx: Ctx, rep: Report, rid: str, spec: str, consequence: str):
+    """The predicate `spec` returns a truthy value under exactly the conditions of DEFINITIONS[spec] (compared as DNF normal forms: order,
+    De Morgan spelling, early-return style and hoisted locals do not matter; an added, dropped or weakened condition does)."""
+    from sa import predform
+    f = ctx.prog.cls(spec.split(".")[0]).methods.get(spec.split(".")[1]) or ctx.prog.cls(spec.split(".")[0]).getters.get(spec.split(".")[1])
+    if f is None:
+        raise AnalysisError("%s vanished" % spec)
+    names = f.params()
+    try:
+        got = predform.dnf(predform.formula(f.node))
+        want = predform.dnf(predform.parse(DEFINITIONS[spec].format(*names)))
+    except predform.Undecided as e:
+        rep.error("rule=%s reason=undecided: %s is no longer a plain predicate (%s)" % (rid, spec, e))
+        return
+    rep.check(rid, "%s|definition" % spec, f, got == want, "is true exactly when %s" % predform.show(want)[:300],
+              "%s is now true when %s ; the state machine was read with: %s . %s" % (spec, predform.show(got)[:500], predform.show(want)[:500], consequence))
